@@ -20,6 +20,7 @@ mod verif_kani_rcl_int {
         data.push(rest[0]); data.push(rest[1]); data.push(rest[2]);
         let (y, tail) = decode_int(&data);
         assert!(y == x);
+        kani::cover!(n == 9, "vacuity probe: the longest code is reachable");
         assert!(tail.len() == 3 && tail[0] == rest[0] && tail[1] == rest[1] && tail[2] == rest[2]);
     }
 }
